@@ -1,4 +1,4 @@
-(* C09 proofs, part 6: DbGrid::_deserialize with the candidate fixes. *)
+(* C09 proofs, part 6: DbGrid::_deserialize (the flags of cfg select the fixes; all on = the code as it is now). *)
 From Coq Require Import List ZArith QArith Bool Lia Arith.
 From Gst Require Import C09.Model C09.Readers C09.Spec C09.Proofs_prim C09.Proofs_loc C09.Proofs_db.
 Import ListNotations.
